@@ -600,7 +600,13 @@ class SymDatetime(datetime):
         return not self._cmp("==", o)
 
     def __hash__(self):
-        raise Unsupported("hash of a symbolic datetime")
+        # equal instants must hash alike: a concrete instant hashes as the real datetime does (so it meets real datetimes
+        # in the same container); every symbolic instant falls into one bucket, where the container's == (a symbolic
+        # comparison, forking on ties) decides.  A symbolic and a real datetime in one hashed container would not meet:
+        # the harnesses build every timestamp of a history through S.ts / the timestamp stub, so they are all symbolic.
+        if self.us.is_const():
+            return hash(_E + timedelta(microseconds=self.us.const_value()))
+        return 0x5D7
 
     def __sub__(self, o):
         if isinstance(o, SymTimedelta):
@@ -1053,6 +1059,28 @@ def vf_int(x, *a):
     if isinstance(x, SymFloat):
         raise Unsupported("int() of a symbolic float")
     return int(x)
+
+
+class FloatOf:
+    """float(<symbolic decimal>): only formatting is modelled; the text stands for the exact value (parts carry the spec)"""
+
+    def __init__(self, dec):
+        self.dec = dec
+
+    def __vf_format__(self, spec):
+        from .vf_decimal import _Formatted  # pylint: disable=import-outside-toplevel
+
+        return SymStr([_Formatted(self.dec, "float:" + spec)])
+
+    def __float__(self):
+        raise Unsupported("float of a symbolic decimal used as a number")
+
+
+def vf_float(x):
+    """float() replacement: exact for ordinary values; a symbolic decimal can only be formatted afterwards"""
+    if getattr(x, "is_concrete", True) is False:
+        return FloatOf(x)
+    return float(x)
 
 
 class IntFmt:
